@@ -56,6 +56,11 @@ pub fn watched<T>(what: &str, input: impl FnOnce() -> String, f: impl FnOnce() -
     WATCH_ARMED.store(false, SeqCst); WATCH_SEQ.fetch_add(1, SeqCst);
     r
 }
+/// for calls that cannot be wrapped in a closure (an `.await`): arm before, disarm after; the input reported is the current case
+static CURRENT_CASE: std::sync::Mutex<String> = std::sync::Mutex::new(String::new());
+pub fn set_case(id: &str) { if let Ok(mut g) = CURRENT_CASE.lock() { g.clear(); g.push_str(id); } }
+pub fn watch_arm(what: &str) { use std::sync::atomic::Ordering::SeqCst; { let c = CURRENT_CASE.lock().map(|g| g.clone()).unwrap_or_default(); let mut g = WATCH_INPUT.lock().unwrap(); g.0.clear(); g.0.push_str(what); g.1 = c; } WATCH_SEQ.fetch_add(1, SeqCst); WATCH_ARMED.store(true, SeqCst); }
+pub fn watch_disarm() { use std::sync::atomic::Ordering::SeqCst; WATCH_ARMED.store(false, SeqCst); WATCH_SEQ.fetch_add(1, SeqCst); }
 /// started once per run; `out` = the run's output directory (stats.json, cases.txt, impl.txt)
 pub fn start_watchdog(prop: &str, out: &str, replay: bool) {
     use std::sync::atomic::Ordering::SeqCst;
@@ -84,6 +89,11 @@ pub fn start_watchdog(prop: &str, out: &str, replay: bool) {
 pub struct Dribble<R> { pub inner: R, pub k: usize }
 impl<R: std::io::Read> std::io::Read for Dribble<R> { fn read(&mut self, buf: &mut [u8]) -> std::io::Result<usize> { let n = buf.len().min(self.k); self.inner.read(&mut buf[..n]) } }
 impl<R: std::io::Seek> std::io::Seek for Dribble<R> { fn seek(&mut self, p: std::io::SeekFrom) -> std::io::Result<u64> { self.inner.seek(p) } }
+
+/// a writer that takes at most k bytes per write() call (a pipe, a socket, a nearly full buffer)
+pub struct DribbleW { pub inner: std::io::Cursor<Vec<u8>>, pub k: usize }
+impl std::io::Write for DribbleW { fn write(&mut self, buf: &[u8]) -> std::io::Result<usize> { let n = buf.len().min(self.k); std::io::Write::write(&mut self.inner, &buf[..n]) } fn flush(&mut self) -> std::io::Result<()> { Ok(()) } }
+impl std::io::Seek for DribbleW { fn seek(&mut self, p: std::io::SeekFrom) -> std::io::Result<u64> { std::io::Seek::seek(&mut self.inner, p) } }
 
 pub fn jstr(s: &str) -> String {
     let mut o = String::from("\"");
